@@ -164,7 +164,10 @@ func VxC19Restore() {
 // not newer than the requested time either; no eligible snapshot is an error.
 func VxC19Generations() {
 	g := vx.Param("GENS", 3)
-	now := time.Now()
+	// a fixed base and whole-second instants: a segment or snapshot may carry exactly
+	// the requested time (object stores report whole seconds, -timestamp takes
+	// RFC 3339 seconds); "not newer than T" includes it
+	now := vxAt(100)
 	c := &vxV3Client{body: map[[2]int64][]byte{}, snaps: map[string][]SnapshotInfoV3{}, segs: map[string][]WALSegmentInfoV3{}}
 	names := []string{"aaaa", "bbbb", "cccc"}[:g]
 	c.gens = names
@@ -178,8 +181,8 @@ func VxC19Generations() {
 			vx.Assume(snapAge[i] != snapAge[j]) // generations do not overlap in time
 		}
 		idx := 10 + i
-		c.snaps[name] = []SnapshotInfoV3{{Generation: name, Index: idx, CreatedAt: vx.TimeAgo(now, snapAge[i])}}
-		c.segs[name] = []WALSegmentInfoV3{{Generation: name, Index: idx, Offset: 0, Size: 1, CreatedAt: vx.TimeAgo(now, segAge[i])}}
+		c.snaps[name] = []SnapshotInfoV3{{Generation: name, Index: idx, CreatedAt: vx.TimeBack(now, snapAge[i])}}
+		c.segs[name] = []WALSegmentInfoV3{{Generation: name, Index: idx, Offset: 0, Size: 1, CreatedAt: vx.TimeBack(now, segAge[i])}}
 		c.body[[2]int64{int64(idx), 0}] = []byte{byte(0xa0 + i)}
 	}
 	useT := vx.Fault("useT")
@@ -193,7 +196,7 @@ func VxC19Generations() {
 	vxCkptLog = nil
 	r := vxV3Replica(c)
 	err := r.RestoreV3(context.Background(), RestoreOptions{OutputPath: out, IntegrityCheck: IntegrityCheckNone, Timestamp: T})
-	// reference: eligible = created at or before T (instants end in .5 s, T is whole)
+	// reference: eligible = created at or before T
 	best := -1
 	for i := 0; i < g; i++ {
 		el := !useT || vx.Concrete(vx.IteU64(snapAge[i] >= tAge, 1, 0)) == 1
@@ -223,12 +226,20 @@ func VxC19Generations() {
 func VxC19Arbitrate() {
 	now := time.Now()
 	c := &vxV3Client{body: map[[2]int64][]byte{}, snaps: map[string][]SnapshotInfoV3{}, segs: map[string][]WALSegmentInfoV3{}}
-	c.gens = []string{"g1"}
-	v3age := vx.Range("v3snapage", 0, 6)
-	c.snaps["g1"] = []SnapshotInfoV3{{Generation: "g1", Index: 0, CreatedAt: vx.TimeAgo(now, v3age)}}
-	v3segage := vx.Range("v3segage", 0, 6)
-	vx.Assume(v3segage <= v3age)
-	c.segs["g1"] = []WALSegmentInfoV3{{Generation: "g1", Index: 0, Offset: 0, CreatedAt: vx.TimeAgo(now, v3segage)}}
+	// one or two legacy generations, listed by name (which says nothing about age):
+	// each a snapshot and a newer WAL segment
+	ng := vx.Choose("generations", 1, 2)
+	names := []string{"aaaa", "bbbb"}[:ng]
+	c.gens = names
+	snapAge := make([]uint64, ng)
+	segAge := make([]uint64, ng)
+	for i, name := range names {
+		snapAge[i] = vx.Range("v3snapage", 0, 6)
+		segAge[i] = vx.Range("v3segage", 0, 6)
+		vx.Assume(segAge[i] <= snapAge[i])
+		c.snaps[name] = []SnapshotInfoV3{{Generation: name, Index: 0, CreatedAt: vx.TimeAgo(now, snapAge[i])}}
+		c.segs[name] = []WALSegmentInfoV3{{Generation: name, Index: 0, Offset: 0, CreatedAt: vx.TimeAgo(now, segAge[i])}}
+	}
 	ltxSnapAge := vx.Range("ltxsnapage", 0, 6)
 	ltxL0Age := vx.Range("ltxl0age", 0, 6)
 	vx.Assume(ltxL0Age <= ltxSnapAge)
@@ -246,14 +257,25 @@ func VxC19Arbitrate() {
 	use, err := r.shouldUseV3Restore(context.Background(), c, T)
 	vx.Assert("arbitration-no-error", err == nil)
 	if !useT {
-		// latest: the format with the more recent backup (ages: smaller = more recent)
-		vx.Assert("latest-uses-more-recent-format", use == (v3segage < ltxL0Age))
+		// latest: the format with the more recent backup (ages: smaller = more recent);
+		// the legacy side's newest backup is its newest WAL segment in any generation
+		v3Latest := segAge[0]
+		for i := 1; i < ng; i++ {
+			v3Latest = vx.IteU64(segAge[i] < v3Latest, segAge[i], v3Latest)
+		}
+		vx.Assert("latest-uses-more-recent-format", use == (v3Latest < ltxL0Age))
 		return
 	}
 	// timestamp: eligible snapshot = at or before T (v3) / before T (ltx); pick the more recent eligible one
-	v3ok := v3age >= tAge // created at now-age-0.5 <= now-tAge  <=>  age+0.5 >= tAge  <=>  age >= tAge
+	v3ok := false
+	var v3best uint64 = 1 << 20
+	for i := 0; i < ng; i++ {
+		el := snapAge[i] >= tAge // created at now-age-0.5 <= now-tAge  <=>  age >= tAge
+		v3ok = vx.Or(v3ok, el)
+		v3best = vx.IteU64(vx.And(el, snapAge[i] < v3best), snapAge[i], v3best)
+	}
 	ltxok := ltxSnapAge >= tAge
-	want := vx.And(v3ok, vx.Or(vx.Not(ltxok), v3age < ltxSnapAge))
+	want := vx.And(v3ok, vx.Or(vx.Not(ltxok), v3best < ltxSnapAge))
 	vx.Assert("timestamp-uses-format-with-newer-eligible-snapshot", use == want)
 }
 
